@@ -3,6 +3,7 @@ package pipeline
 import (
 	"fmt"
 	"go/ast"
+	"go/token"
 	"slices"
 	"strings"
 
@@ -227,10 +228,17 @@ func (p *GleecePipeline) appendRouteImports(imports map[string]MapSet.Set[string
 			imports[retValPkgPath] = MapSet.NewSet[string]()
 		}
 
+		retValTypeName := common.UnwrapArrayTypeString(retVal.Name)
+		if !token.IsIdentifier(retValTypeName) {
+			// 'time.Time', 'map[string]Item' and the like cannot be part of an import alias and the generated
+			// code never refers to such a response type by name - emitting the alias would only break the file
+			continue
+		}
+
 		retValImportName := fmt.Sprintf(
 			"Response%d%s",
 			retVal.UniqueImportSerial,
-			common.UnwrapArrayTypeString(retVal.Name),
+			retValTypeName,
 		)
 		imports[retValPkgPath].Add(retValImportName)
 	}
